@@ -4,12 +4,39 @@ import json, os, subprocess
 
 VERIF = os.path.dirname(os.path.dirname(os.path.abspath(__file__)))
 
+SIM_NOTE = "Trusted: the observer connection's SELECTs, the harness's adversarial AIO (it replaces internal/aio and decides order, batching, delays and failures of the real subsystems), SQLite's atomic commit, the harness's reading of the property (monitor rules in harness/vsim/monitors.go, spec.go). Only generated schedules are covered; the Postgres backend is covered by C17 only."
+
+def sim(design, technique, text, category="exploration"):
+    return dict(engine="sim", category=category, design=design, technique=technique, text=text, note=SIM_NOTE)
+
 CLAIMED = {
-    "C01": dict(
-        engine="sim", category="exploration", design="DESIGN.md §4 C01, §2.2, Appendix B",
-        technique="runtime monitoring: per-commit row-transition monitor + one-completion-record payload monitor over the real kernel under an adversarial AIO",
-        text="The real kernel, coroutines, router, sender worker and SQLite store run under an adversarial AIO (schedule classes fifo/dst/free, batching, delays, pre/post-commit failures, crash+restart); after every store commit an observer connection reads all tables and a monitor judges each promise row transition (pending->one terminal state exactly once, creation columns constant, no deletion), and every payload (responses, search hits, claim payloads, notify bodies) is compared with the completion on record. Held on the executions explored; nothing is proved.",
-        note="Trusted: the observer's SELECTs, the harness's adversarial AIO (it replaces internal/aio), SQLite's atomic commit. Schedules beyond the generated ones and the Postgres backend (see C17) are not covered."),
+    "C01": sim("DESIGN.md §4 C01, §2.2, Appendix B",
+        "runtime monitoring: per-commit promise-row transition monitor + one-completion-record payload monitor, real kernel under an adversarial AIO",
+        "The real kernel, coroutines, router, sender worker and SQLite store run under an adversarial AIO (schedule classes fifo/dst/free, batching, delays, held completions, pre/post-commit failures); after every store commit an observer connection reads all tables and a monitor judges each promise row transition (pending -> one terminal state exactly once, creation columns constant, no deletion), and every payload (responses, search hits, claim payloads, notify bodies) is compared with the completion on record. Held on the executions explored; nothing is proved."),
+    "C02": sim("DESIGN.md §4 C02, §3.1, Appendix A",
+        "runtime monitoring: witnessed-linearization check of every reply against a hand-written sequential specification on the observed state sequence",
+        "Spec mode forces one store transaction per batch, so the database state before and after every transaction of every request is observed. Each answered request is judged at the instant of its deciding transaction: status and every returned resource must equal what the sequential specification (Appendix A, written from the property text) answers on that state at the clock value the request saw, its state change must be the specification's effect, and no other transaction of the request may change anything; background steps are judged by the row monitors (lease sweeps, lock sweeps). Workloads: all request kinds except search over small shared id sets, kernel configuration grid, failures."),
+    "C03": sim("DESIGN.md §4 C03, Appendix A",
+        "runtime monitoring: sequential-specification oracle over an enumerated idempotency matrix (situation x operation x key relation x strict x retry path) + write-once row monitors",
+        "Every cell of {absent,pending,resolved,rejected,canceled,timed out,overdue} x {create,create-with-task,complete} x {sequential, retry after a lost response, racing, 1-4 repeats} x 9 key relations x routed/unrouted runs on the real kernel; each status/body is compared with the sequential specification, the row monitors check that at most one creation and one completion take effect and that no repeat creates a task."),
+    "C04": sim("DESIGN.md §4 C04",
+        "runtime monitoring: tick-exact assertions on every payload and every promise row under a virtual clock",
+        "A virtual clock is passed to System.Tick; requests, completions and the sweep are placed on ticks around the deadline (before, at, after; clock jumps; held completions so decision, commit and reply ticks differ). Monitors assert: no read/create/complete/search reply shows pending at a reply tick >= timeout; no row or payload is timed out at a commit tick < timeout; a timeout completion has completedOn = timeout, empty value, no key, state by the resonate:timeout tag; a 201 completion has completedOn < timeout inside the request's tick interval."),
+    "C05": sim("DESIGN.md §4 C05",
+        "runtime monitoring: registration-conservation monitor per commit (callbacks <-> tasks <-> promise state) + acknowledgement ledger at the reply event",
+        "After every commit: every callbacks row belongs to a pending promise; when a promise leaves pending, exactly its registrations (those stored before plus those inserted earlier in the same batch) appear as new tasks with the same id/recv/mesg/timeout/root and the registrations are gone; registrations never vanish otherwise; no unexplained task appears. At every acknowledged registration that shows the promise pending, the registration (or the task it became) must be stored for that promise."),
+    "C07": sim("DESIGN.md §4 C07, Appendix B",
+        "runtime monitoring: task-row transition monitor (state, counter, guaranteed lease) + claim ledger",
+        "Workers that use dispatched (id,counter) pairs, stale and future counters, heartbeats and completions race lease sweeps, dispatch cycles and promise completion. Every task row change must be a legal edge (Appendix B): claim only from init/enqueued with the row's counter and as requested; heartbeat only by the owning process; re-init only with counter+1 and only when the lease a holder can rely on (claim, then heartbeats that arrived before it ran out) or the timeout has passed on the commit tick; finished tasks never change; counters never decrease; successful (id,counter) claims are unique."),
+    "C08": sim("DESIGN.md §4 C08",
+        "runtime monitoring: birth/finish-with-promise monitor, dispatch-cycle selection monitor on the read transaction's snapshot, hand-off ledger from the real sender worker",
+        "Routed promises must be born with their invocation task (independent routing oracle) and unrouted ones without; a completing promise finishes every outstanding task of its root in the same commit; every dispatch selection is judged on the snapshot its read saw (only init tasks, one per root, no root with an enqueued/claimed sibling, limit); enqueued only after a recorded successful hand-off, failed hand-offs counted and retried, notifications finished only after a recorded attempt; message bodies come from the real sender worker and must name the selected (id,counter) and its hrefs."),
+    "C09": sim("DESIGN.md §4 C09",
+        "runtime monitoring: lock-table model replay per commit (commands applied in order to a model started from the previous snapshot)",
+        "Every batch's lock commands are replayed on a model of the lock table: an acquire succeeds iff the lock is free or held by the same execution, a release removes only the holder's row, a heartbeat only extends locks of that process (never creates or transfers), a sweep removes exactly the rows with expiresAt <= its time and never runs ahead of the clock; reported row counts, lease arithmetic (expiresAt = time + ttl with the time inside the request's tick interval) and the resulting table must equal the model."),
+    "C10": sim("DESIGN.md §4 C10",
+        "runtime monitoring: schedule/promise co-transition monitor against the check's own cron enumerator and id-template expander",
+        "Clock patterns (sub-period steps, exact periods, jumps over many occurrences, crash + later restart), create/delete/re-create racing the firing cycle, users creating an occurrence's id first. Every change of a schedule row must be (last := old next, next := the following occurrence by the check's own cron enumerator) at a tick >= old next, once per occurrence, in a commit after which the occurrence's promise exists; a promise created by the cycle must carry template id, timeout = occurrence + promiseTimeout, param, tags + marker tags; nothing fires for an occurrence later than the deletion."),
 }
 
 PENDING_REASON = "check for this property is not built yet in this round (machinery under construction; see DESIGN.md §9 build order)"
